@@ -33,6 +33,9 @@ func VerifNewClient(conn *websocket.Conn, opt *Options) *VerifClient {
 		ep:     newEndpointClient(conn, opt),
 		served: make(chan struct{}),
 	}
+	if opt.Siding {
+		c.ep.setToken(func() (string, error) { return "", nil })
+	}
 	go func() {
 		c.serveErr = c.ep.serve()
 		close(c.served)
@@ -96,6 +99,12 @@ func (c *VerifClient) Hello(ctx context.Context, msg string) (string, error) {
 // Dial is endpointClient.Dial.
 func (c *VerifClient) Dial(ctx context.Context, addr string) (net.Conn, error) {
 	return c.ep.Dial(ctx, addr)
+}
+
+// DeliverSide hands a side connection to the dial that waits for session
+// key (id, key), as Server.serveBackSide does.
+func (c *VerifClient) DeliverSide(id, key uint64, conn net.Conn) error {
+	return c.ep.deliverSideConn(&sessionKey{ID: id, Key: key}, conn)
 }
 
 // Tunnel returns the tunnel connection object for a session id.
